@@ -58,24 +58,34 @@ def from_bool(b, n):
     return 1 if b else 0
 def sx(v, n): return v - (1 << n) if v >> (n - 1) else v
 
-class Violation(Exception): pass
-class PathEnd(Exception): pass
+class Violation(Exception): pass        # the code under test did something it must never do
+class PathEnd(Exception): pass          # path ends normally (assume false, infeasible)
+class Inconclusive(Exception): pass     # budget or engine limit exceeded: never success
+class Crash(Exception): pass            # harness-requested simulated process death (verif_die)
 
 # --------------------------------------------------------------------------- engine
 class Engine:
-    def __init__(s, path):
+    def __init__(s, path, max_steps=20000000, max_depth=400, known=None):
         s.m = ir2c.parse_module(open(path).read())
         s.L = Layout(s.m)
         s.decoded = {}
         s.stats = collections.Counter()
         s.violations = []
+        s.max_steps = max_steps; s.max_depth = max_depth; s.hooks = {}
+        s.known = known or []          # known findings: list of dict(assert=regex, when={name: value})
+        s.fn_steps = collections.Counter()
+        s.work = []
 
     # ---- memory
     def reset(s):
         s.cells = {}; s.owner = {}; s.allocs = []; s.alloc_starts = []; s.brk = 0x100000
         s.fnaddr = {}; s.addrfn = {}; s.gaddr = {}
         s.solver = z3.Solver(); s.nondet_n = 0; s.trace = []; s.di = 0; s.icount = 0
-        s.vfs = {}; s.files = {}; s.events = 0
+        s.vfs = {}; s.files = {}; s.events = 0; s.frozen = False; s.vfs_mtime = {}; s.vfs_clock = 1
+        s.model = None; s.nondets = []; s.obs = []; s.reached = []; s.notes = []; s.depth = 0
+        s.violations = []; s.clock = 0; s.errno_addr = None; s.asserts_seen = {}
+        s.env = {}; s.tty = 0; s.vfs_dirs = set(); s.vfs_id = {}; s.expect_fatal = False
+        s.vfs['<stdout>'] = []; s.vfs['<stderr>'] = []
         a = 0x1000
         for name in s.m.funcs:
             s.fnaddr[name] = a; s.addrfn[a] = name; a += 16
@@ -85,6 +95,13 @@ class Engine:
             if name.startswith('@llvm.'): continue
             s.gaddr[name] = s.alloc(s.L.sizeof(g['type']), 'global ' + name, zero=True)
             if name == '@optind': s.store(s.gaddr[name], 4, 1)
+            if name in ('@stdout', '@stderr'):
+                h = s.alloc(16, 'FILE ' + name, zero=True); s.store(s.gaddr[name], 8, h)
+                s.files[h] = dict(path='<%s>' % name[1:], pos=0, append=True, eof=False, mode='a', id=None)
+                if name == '@stdout': s.stdout_h = h
+        if '@stdout' not in s.gaddr:
+            s.stdout_h = s.alloc(16, 'FILE stdout', zero=True)
+            s.files[s.stdout_h] = dict(path='<stdout>', pos=0, append=True, eof=False, mode='a', id=None)
         for name, g in s.m.globals.items():
             if g['alias'] is not None:
                 tgt = g['alias']
@@ -282,6 +299,13 @@ class Engine:
         if op == 'icmp':
             pred = p.next()[1]; t = parse_type(p); a = parse_value(p, t); p.expect(','); b = parse_value(p, t)
             return ('icmp', res, pred, t, s.opnd(a), s.opnd(b))
+        if op == 'fcmp':
+            while p.peek()[1] in ('fast', 'nnan', 'ninf', 'nsz', 'arcp', 'contract', 'afn', 'reassoc'): p.next()
+            pred = p.next()[1]; t = parse_type(p); a = parse_value(p, t); p.expect(','); b = parse_value(p, t)
+            return ('fcmp', res, pred, t, s.opnd(a), s.opnd(b))
+        if op == 'fneg':
+            while p.peek()[1] in ('fast', 'nnan', 'ninf', 'nsz', 'arcp', 'contract', 'afn', 'reassoc'): p.next()
+            t, v = parse_tv(p); return ('fneg', res, s.opnd(v))
         if op == 'select':
             ct, cv = parse_tv(p); p.expect(','); t, a = parse_tv(p); p.expect(','); t2, b = parse_tv(p)
             return ('select', res, s.opnd(cv), s.opnd(a), s.opnd(b), t)
@@ -436,44 +460,83 @@ class Engine:
         raise NotImplementedError(op)
 
     # ---- solver / decisions
-    def sat(s, c):
+    def check_sat(s, c):
+        """is pc ∧ c satisfiable?  returns a model or None"""
         s.stats['solver_calls'] += 1
-        s.solver.push(); s.solver.add(c); r = s.solver.check(); s.solver.pop()
-        return r == z3.sat
-    def decide(s, options_fn):
-        """options_fn() -> list of (value, constraint) feasible alternatives; returns chosen value"""
+        t0 = time.time()
+        s.solver.push(); s.solver.add(c); r = s.solver.check()
+        mdl = s.solver.model() if r == z3.sat else None
+        s.solver.pop()
+        s.stats['solver_time'] += time.time() - t0
+        if r == z3.unknown: raise Inconclusive('solver returned unknown')
+        return mdl
+    def sat(s, c): return s.check_sat(c) is not None
+    def cur_model(s):
+        if s.model is None:
+            s.stats['solver_calls'] += 1; t0 = time.time()
+            r = s.solver.check(); s.stats['solver_time'] += time.time() - t0
+            if r == z3.unknown: raise Inconclusive('solver returned unknown')
+            if r != z3.sat: raise PathEnd('infeasible')
+            s.model = s.solver.model()
+        return s.model
+    def holds_in_model(s, c):
+        m = s.model
+        if m is None: return None
+        v = m.eval(c, model_completion=True)
+        if z3.is_true(v): return True
+        if z3.is_false(v): return False
+        return None
+    def decide(s, options_fn, con_of):
+        """options_fn() -> list of (value, constraint, model) feasible alternatives; con_of(value) -> constraint.
+        Decisions are recorded as plain values so that prefixes can be shipped between processes."""
         i = s.di; s.di += 1
         if i < len(s.prefix):
-            val, con = s.prefix[i]
+            val = s.prefix[i]; con = con_of(val); s.model = None
         else:
             opts = options_fn()
             if not opts: raise PathEnd('infeasible')
-            val, con = opts[0]
-            for alt in opts[1:]: s.work.append(list(s.trace) + [alt])
-        s.trace.append((val, con))
+            val, con, mdl = opts[0]
+            for alt in opts[1:]: s.work.append(s.trace + [alt[0]])
+            s.model = mdl
+            s.stats['decisions'] += 1
+        s.trace.append(val)
         if con is not None: s.solver.add(con)
         return val
+    def feasible_sides(s, c):
+        """-> (model_if_c_feasible or None, model_if_not_c_feasible or None), using the cached model to save a query"""
+        nc = z3.Not(c)
+        h = s.holds_in_model(c)
+        if h is True:
+            return s.model, s.check_sat(nc)
+        if h is False:
+            return s.check_sat(c), s.model
+        mc = s.check_sat(c)
+        if mc is None: return None, s.cur_model()     # pc is satisfiable, so the other side must be
+        return mc, s.check_sat(nc)
     def branch(s, c):
         if not is_sym(c): return bool(c)
         c = to_bool(c)
         def opts():
-            o = []
-            if s.sat(c): o.append((True, c))
-            nc = z3.Not(c)
-            if s.sat(nc): o.append((False, nc))
+            mc, mn = s.feasible_sides(c); o = []
+            if mc is not None: o.append((True, c, mc))
+            if mn is not None: o.append((False, z3.Not(c), mn))
             return o
-        return s.decide(opts)
-    def concretize(s, v, n, limit=1024):
+        return s.decide(opts, lambda v: c if v else z3.Not(c))
+    def concretize(s, v, n, limit=256):
         if not is_sym(v): return v
         if z3.is_bool(v): v = from_bool(v, n)
         def opts():
             o = []; s.solver.push()
-            while len(o) <= limit and s.solver.check() == z3.sat:
-                x = s.solver.model().eval(v, model_completion=True).as_long(); o.append((x, v == x)); s.solver.add(v != x)
+            while len(o) <= limit:
+                s.stats['solver_calls'] += 1
+                if s.solver.check() != z3.sat: break
+                m = s.solver.model()
+                x = m.eval(v, model_completion=True).as_long(); o.append((x, v == x, None)); s.solver.add(v != x)
             s.solver.pop()
-            if len(o) > limit: raise Violation('too many feasible values to concretize')
+            if len(o) > limit: raise Inconclusive('more than %d feasible values to concretize' % limit)
+            o.sort(key=lambda t: t[0])
             return o
-        return s.decide(opts)
+        return s.decide(opts, lambda x: v == x)
 
     # ---- execution
     def val(s, o, fr):
@@ -481,9 +544,13 @@ class Engine:
         return s.const(o[1])
     def call(s, name, args):
         if name in ('@_Z5ErrorPKcz', '@_Z7WarningPKcz', '@_Z4InfoPKcz', '@_Z5FatalPKcz'):
-            txt = bytes(b if isinstance(b, int) else 63 for b in s.fmt(s.cstring(args[0]), args[1:])).decode('latin1')
-            s.vfs.setdefault('<stderr>', []).extend(ord(c) for c in 'ninja: ' + txt + '\n')
-            if name == '@_Z5FatalPKcz': raise Violation('Fatal(): ' + txt)
+            bs = s.fmt(s.cstring(args[0]), args[1:])
+            pre = {'@_Z5ErrorPKcz': 'ninja: error: ', '@_Z7WarningPKcz': 'ninja: warning: ', '@_Z4InfoPKcz': 'ninja: ', '@_Z5FatalPKcz': 'ninja: fatal: '}[name]
+            s.vfs['<stdout>' if name == '@_Z4InfoPKcz' else '<stderr>'].extend([ord(c) for c in pre] + bs + [10])
+            if name == '@_Z5FatalPKcz':
+                txt = bytes(b if isinstance(b, int) else 63 for b in bs).decode('latin1')
+                if s.expect_fatal: raise PathEnd('expected Fatal(): ' + txt)
+                raise Violation('Fatal(): ' + txt)
             return None
         f = s.m.funcs.get(name)
         if f is None and name in s.m.globals and s.m.globals[name].get('alias') is not None:
@@ -491,6 +558,15 @@ class Engine:
             while tgt[0] == 'cast': tgt = tgt[3]
             name = tgt[1]; f = s.m.funcs.get(name)
         if f is None or f.body is None: return s.external(name, args)
+        hook = s.hooks.get(name)
+        if hook is not None:
+            r = hook(s, args)
+            if r is not NotImplemented: return r
+        s.depth += 1
+        if s.depth > s.max_depth: raise Violation('unbounded recursion: call depth exceeds %d in %s' % (s.max_depth, name))
+        try: return s.run_function(name, f, args)
+        finally: s.depth -= 1
+    def run_function(s, name, f, args):
         blocks, entry_alias = s.decode(name)
         fr = {}
         for (t, pn, a), v in zip(f.params, args):
@@ -508,11 +584,18 @@ class Engine:
                 if ins[0] != 'phi': break
                 pv.append((ins[1], s.val(ins[3][prev], fr)))
             for r, v in pv: fr[r] = v
+            if s.icount > s.max_steps: raise Inconclusive('step budget of %d instructions exhausted (in %s)' % (s.max_steps, name))
             for ins in insts:
                 op = ins[0]; s.icount += 1
                 if op == 'phi' or op == 'nop': continue
                 if op == 'bin': fr[ins[1]] = s.binop(ins[2], ins[3], s.val(ins[4], fr), s.val(ins[5], fr))
                 elif op == 'icmp': fr[ins[1]] = s.icmp(ins[2], ins[3], s.val(ins[4], fr), s.val(ins[5], fr))
+                elif op == 'fcmp':
+                    a = s.val(ins[4], fr); b = s.val(ins[5], fr); pr = ins[2]; nan = a != a or b != b
+                    if pr in ('true', 'false'): fr[ins[1]] = int(pr == 'true')
+                    elif nan: fr[ins[1]] = int(pr[0] == 'u')
+                    else: fr[ins[1]] = int({'eq': a == b, 'ne': a != b, 'gt': a > b, 'ge': a >= b, 'lt': a < b, 'le': a <= b, 'rd': True, 'no': False}[pr[1:]])
+                elif op == 'fneg': fr[ins[1]] = -s.val(ins[2], fr)
                 elif op == 'load':
                     a = s.val(ins[3], fr)
                     if is_sym(a) and ins[2][0] == 'int': fr[ins[1]] = s.sym_load(a, ins[2])
@@ -569,15 +652,20 @@ class Engine:
                     if is_sym(v):
                         groups = collections.OrderedDict()
                         for cv, lab in ins[3]: groups.setdefault(lab, []).append(cv)
-                        def opts(v=v, groups=groups, dflt=ins[2]):
-                            o = []; allc = []
-                            for lab, cvs in groups.items():
-                                c = z3.Or(*[v == x for x in cvs]); allc.append(c)
-                                if s.sat(c): o.append((lab, c))
-                            d = z3.Not(z3.Or(*allc)) if allc else z3.BoolVal(True)
-                            if s.sat(d): o.append((dflt, d))
+                        dflt = ins[2]
+                        def con_of(lab, v=v, groups=groups, dflt=dflt):
+                            if lab in groups and lab != dflt: return z3.Or(*[v == x for x in groups[lab]])
+                            allc = [v == x for l2, cvs in groups.items() if l2 != dflt for x in cvs]
+                            return z3.Not(z3.Or(*allc)) if allc else z3.BoolVal(True)
+                        def opts(v=v, groups=groups, dflt=dflt, con_of=con_of):
+                            o = []
+                            for lab in list(groups) + [dflt]:
+                                if lab == dflt and lab in groups and o and o[-1][0] == dflt: continue
+                                if any(x[0] == lab for x in o): continue
+                                c = con_of(lab); mdl = s.check_sat(c)
+                                if mdl is not None: o.append((lab, c, mdl))
                             return o
-                        cur = s.decide(opts)
+                        cur = s.decide(opts, con_of)
                     else:
                         cur = ins[2]
                         for cv, lab in ins[3]:
@@ -606,8 +694,7 @@ class Engine:
     def sym_load(s, a, t):
         # load through a symbolic address: locate the object via one model, prove in-bounds, then build an If-chain over offsets
         a = z3.simplify(a)
-        if s.solver.check() != z3.sat: raise PathEnd('infeasible')
-        w = s.solver.model().eval(a, model_completion=True).as_long()
+        w = s.cur_model().eval(a, model_completion=True).as_long()
         al = s.find_alloc(w); size = s.L.sizeof(t)
         if al is None or not al[2]: raise Violation('memory-safety: load through symbolic pointer may hit no object (%#x)' % w)
         lo, hi = al[0], al[0] + al[1] - size
@@ -686,51 +773,126 @@ class Engine:
         if name.startswith('llvm.trap'): raise Violation('llvm.trap')
         raise NotImplementedError(name)
 
-    def cstring(s, a, limit=4096):
+    def cstring(s, a, limit=1 << 20):
         out = []
         while len(out) < limit:
             b = s.load(a + len(out), 1)
-            if is_sym(b): out.append(ord('?')); continue
+            if is_sym(b):
+                b = s.concretize(b, 8)
             if b == 0: break
             out.append(b)
         return bytes(out).decode('latin1')
+    def cbytes(s, a, n): return [s.load(a + i, 1) for i in range(n)]
+    def put_cstring(s, text, kind='cstr'):
+        bs = text.encode('latin1') if isinstance(text, str) else bytes(text)
+        a = s.alloc(len(bs) + 1, kind)
+        for i, b in enumerate(bs): s.store(a + i, 1, b)
+        s.store(a + len(bs), 1, 0); return a
+
+    def eval_in(s, mdl, v):
+        if not is_sym(v): return v
+        r = mdl.eval(v, model_completion=True)
+        if z3.is_bool(r): return 1 if z3.is_true(r) else 0
+        return r.as_long()
+    def vector_of(s, mdl):
+        return [(name, sx(s.eval_in(mdl, var), 64)) for name, var in s.nondets]
+    def known_pred(s, kf):
+        """z3 predicate 'this counterexample is the known finding kf' over the named nondets of this path (None if it cannot match)"""
+        conj = []
+        byname = {}
+        for name, var in s.nondets: byname.setdefault(name, []).append(var)
+        for name, want in kf.get('when', {}).items():
+            idx = 0
+            if '#' in name: name, idx = name.split('#'); idx = int(idx)
+            vs = byname.get(name)
+            if not vs or idx >= len(vs): return None
+            if isinstance(want, list): conj.append(z3.Or(*[vs[idx] == w for w in want]))
+            else: conj.append(vs[idx] == want)
+        return z3.And(*conj) if conj else z3.BoolVal(True)
+    def report(s, msg, cond_false=None):
+        """record a violation: msg, with cond_false the z3 condition under which it happens (None = unconditionally on this path)"""
+        import re
+        kfs = [k for k in s.known if re.search(k['assert'], msg)]
+        preds = [(k, s.known_pred(k)) for k in kfs]; preds = [(k, p) for k, p in preds if p is not None]
+        base = cond_false if cond_false is not None else z3.BoolVal(True)
+        fresh = s.check_sat(z3.And(base, *[z3.Not(p) for k, p in preds])) if preds else s.check_sat(base)
+        if fresh is not None:
+            s.violations.append(dict(msg=msg, known=None, vector=s.vector_of(fresh), trace=list(s.trace), notes=list(s.notes)))
+            return True
+        any_known = False
+        for k, p in preds:
+            mdl = s.check_sat(z3.And(base, p))
+            if mdl is not None:
+                s.violations.append(dict(msg=msg, known=k['id'], vector=s.vector_of(mdl), trace=list(s.trace), notes=list(s.notes))); any_known = True
+        return any_known
 
     def external(s, name, args):
         n = name[1:]
         r = s.vfs_call(n, args)
         if r is not NotImplemented: return r
         if n in ('_Znwm', '_Znam', 'malloc'):
-            return s.alloc(s.concretize(args[0], 64), 'heap')
+            sz = s.concretize(args[0], 64)
+            if sz > (1 << 32): raise Violation('allocation of %d bytes (std::bad_alloc / bad_array_new_length)' % sz)
+            return s.alloc(sz, 'heap')
+        if n == 'calloc':
+            sz = s.concretize(args[0], 64) * s.concretize(args[1], 64); return s.alloc(sz, 'heap', zero=True)
+        if n == 'realloc':
+            old = args[0]; sz = s.concretize(args[1], 64); a = s.alloc(sz, 'heap')
+            if old:
+                al = s.find_alloc(old); s.memcpy(a, old, min(sz, al[1])); al[2] = False
+            return a
         if n in ('_ZdlPv', '_ZdaPv', '_ZdlPvm', '_ZdaPvm', 'free'):
-            a = args[0]
+            a = s.concretize(args[0], 64)
             if a == 0: return None
             al = s.find_alloc(a)
-            if al is None or al[0] != a or not al[2]: raise Violation('invalid or double free at %#x' % a)
+            if al is None or al[0] != a or not al[2]: raise Violation('memory-safety: invalid or double free at %#x' % a)
             al[2] = False; return None
         if n == '__CPROVER_assume':
             c = args[0]
             if is_sym(c):
                 c = to_bool(c)
-                if not s.sat(c): raise PathEnd('assume false')
+                h = s.holds_in_model(c)
+                if h is not True:
+                    mdl = s.check_sat(c)
+                    if mdl is None: raise PathEnd('assume false')
+                    s.model = mdl
                 s.solver.add(c)
             elif not c: raise PathEnd('assume false')
             return None
         if n == '__CPROVER_assert':
-            c = args[0]; msg = s.cstring(args[1]); s.stats['asserts'] += 1
+            c = args[0]; msg = s.cstring(args[1]); s.stats['asserts'] += 1; s.asserts_seen[msg] = s.asserts_seen.get(msg, 0) + 1
             if is_sym(c):
-                c = to_bool(c); nc = z3.Not(c)
-                s.solver.push(); s.solver.add(nc)
-                if s.solver.check() == z3.sat:
-                    mdl = s.solver.model(); s.solver.pop()
-                    s.violations.append((msg, {str(d): mdl[d] for d in mdl.decls()}, list(s.trace)))
-                    s.solver.add(c)
-                else: s.solver.pop()
+                c = to_bool(c)
+                if s.sat(z3.Not(c)):
+                    s.report(msg, z3.Not(c))
+                    if not s.sat(c): raise PathEnd('assert failed on the whole path')
+                    s.solver.add(c); s.model = None
             elif not c:
-                s.violations.append((msg, {}, list(s.trace))); raise PathEnd('assert failed concretely')
+                s.report(msg); raise PathEnd('assert failed concretely')
             return None
+        if n == 'verif_nondet':
+            nm = s.cstring(args[0]); lo = sx(s.concretize(args[1], 64), 64); hi = sx(s.concretize(args[2], 64), 64)
+            s.nondet_n += 1
+            if lo == hi: s.nondets.append((nm, z3.BitVecVal(lo, 64))); return lo & 0xFFFFFFFFFFFFFFFF
+            v = z3.BitVec('%s!%d' % (nm, s.nondet_n), 64)
+            s.nondets.append((nm, v))
+            if lo >= 0 and hi < (1 << 62):
+                # keep the term narrow: w low bits free, rest zero
+                w = max(1, hi.bit_length()); 
+                nv = z3.BitVec('%s!%d' % (nm, s.nondet_n), w); s.nondets[-1] = (nm, z3.ZeroExt(64 - w, nv)); v = s.nondets[-1][1]
+                if lo > 0: s.solver.add(z3.UGE(nv, lo))
+                if hi != (1 << w) - 1: s.solver.add(z3.ULE(nv, hi))
+            else:
+                s.solver.add(v >= lo, v <= hi)
+            s.model = None
+            return v
         if n.startswith('nondet_'):
             w = {'nondet_int': 32, 'nondet_uint': 32, 'nondet_long': 64, 'nondet_ulong': 64, 'nondet_char': 8, 'nondet_uchar': 8, 'nondet_bool': 8}[n]
-            s.nondet_n += 1; return z3.BitVec('%s_%d' % (n, s.nondet_n), w)
+            s.nondet_n += 1; v = z3.BitVec('%s!%d' % (n, s.nondet_n), w); s.nondets.append((n, z3.SignExt(64 - w, v) if w < 64 else v)); return v
+        if n == 'verif_reach': s.reached.append(s.cstring(args[0])); return None
+        if n == 'verif_obs': s.obs.append(args[0]); return None
+        if n == 'verif_note': s.notes.append(s.cstring(args[0])); return None
+        if n == 'verif_expect_fatal': s.expect_fatal = bool(args[0]); return None
         if n == 'ir2c_global_ctors':
             g = s.m.globals.get('@llvm.global_ctors')
             if g:
@@ -741,10 +903,11 @@ class Engine:
             return None
         if n in ('__cxa_guard_acquire',): return int(s.load(args[0], 1) == 0)
         if n in ('__cxa_guard_release',): s.store(args[0], 1, 1); return None
-        if n in ('__cxa_atexit',): return 0
-        if n in ('abort', 'exit', '_exit'): raise Violation(n + '() called')
+        if n in ('__cxa_atexit', 'atexit'): return 0
+        if n in ('abort', 'exit', '_exit', '__assert_fail', '__cxa_pure_virtual', '_ZSt9terminatev'):
+            raise Violation(n + '() called')
         if n == 'strlen':
-            a = args[0]; k = 0
+            a = s.concretize(args[0], 64); k = 0
             while True:
                 b = s.load(a + k, 1)
                 if is_sym(b):
@@ -752,144 +915,302 @@ class Engine:
                 elif b == 0: return k
                 k += 1
         if n in ('memcmp', 'bcmp'):
-            a, b, ln = args[0], args[1], s.concretize(args[2], 64)
+            a, b, ln = s.concretize(args[0], 64), s.concretize(args[1], 64), s.concretize(args[2], 64)
+            if ln: s.check(a, ln, 'memcmp'); s.check(b, ln, 'memcmp')
             for i in range(ln):
                 x, y = s.load(a + i, 1), s.load(b + i, 1)
                 if is_sym(x) or is_sym(y):
                     if s.branch(bv(x, 8) != bv(y, 8)): return 1 if s.branch(z3.UGT(bv(x, 8), bv(y, 8))) else 0xFFFFFFFF
                 elif x != y: return 1 if x > y else 0xFFFFFFFF
             return 0
+        if n in ('strcmp', 'strncmp'):
+            a, b = s.concretize(args[0], 64), s.concretize(args[1], 64); lim = s.concretize(args[2], 64) if n == 'strncmp' else 1 << 30; i = 0
+            while i < lim:
+                x, y = s.load(a + i, 1), s.load(b + i, 1)
+                if is_sym(x) or is_sym(y):
+                    if s.branch(bv(x, 8) != bv(y, 8)): return 1 if s.branch(z3.UGT(bv(x, 8), bv(y, 8))) else 0xFFFFFFFF
+                    if s.branch(bv(x, 8) == 0): return 0
+                else:
+                    if x != y: return 1 if x > y else 0xFFFFFFFF
+                    if x == 0: return 0
+                i += 1
+            return 0
         if n == 'memchr':
-            a, c, ln = args[0], args[1], s.concretize(args[2], 64)
+            a, c, ln = s.concretize(args[0], 64), args[1], s.concretize(args[2], 64)
+            c8 = (c & 255) if not is_sym(c) else z3.Extract(7, 0, c)
             for i in range(ln):
                 x = s.load(a + i, 1)
-                if s.branch(s.icmp('eq', ('int', 8), x, (c & 255) if not is_sym(c) else z3.Extract(7, 0, c))): return a + i
+                if s.branch(s.icmp('eq', ('int', 8), x, c8)): return a + i
             return 0
+        if n in ('strchr', 'strrchr'):
+            a = s.concretize(args[0], 64); c = s.concretize(args[1], 32) & 255; i = 0; last = 0
+            while True:
+                x = s.load(a + i, 1)
+                if s.branch(s.icmp('eq', ('int', 8), x, c)):
+                    if n == 'strchr' or c == 0: return a + i
+                    last = a + i
+                elif s.branch(s.icmp('eq', ('int', 8), x, 0)): return last
+                i += 1
+        if n == 'strstr':
+            h = s.cstring(args[0]); nd = s.cstring(args[1]); k = h.find(nd); return 0 if k < 0 else args[0] + k
+        if n == 'strdup': return s.put_cstring(s.cstring(args[0]), 'heap')
+        if n in ('strcpy',):
+            t = s.cstring(args[1])
+            for i, ch in enumerate(t.encode('latin1') + b'\0'): s.store(args[0] + i, 1, ch)
+            return args[0]
+        if n == 'strerror': return s.put_cstring({2: 'No such file or directory', 13: 'Permission denied'}.get(s.concretize(args[0], 32), 'Unknown error'))
+        if n in ('getenv', 'secure_getenv'):
+            v = s.env.get(s.cstring(args[0])); return 0 if v is None else s.put_cstring(v)
+        if n == 'setenv': s.env[s.cstring(args[0])] = s.cstring(args[1]); return 0
+        if n == 'unsetenv': s.env.pop(s.cstring(args[0]), None); return 0
+        if n in ('isatty',): return s.tty
+        if n in ('getpid',): return 4242
+        if n in ('toupper', 'tolower'):
+            c = s.concretize(args[0], 32)
+            if n == 'toupper' and 97 <= c <= 122: return c - 32
+            if n == 'tolower' and 65 <= c <= 90: return c + 32
+            return c
+        if n in ('isalpha', 'isdigit', 'isspace', 'isalnum'):
+            c = chr(s.concretize(args[0], 32) & 255); return int({'isalpha': c.isalpha() and c.isascii(), 'isdigit': c in '0123456789', 'isspace': c in ' \t\n\r\v\f', 'isalnum': c.isalnum() and c.isascii()}[n])
         if n.startswith('_ZSt') and 'throw' in n: raise Violation('C++ exception: ' + n)
-        if n == 'fwrite': return args[2]
-        if n == 'fprintf': return 1
-        if n in ('vfprintf', 'putchar'): return 0
+        if n in ('__cxa_throw', '__cxa_allocate_exception', '_ZSt17__throw_bad_allocv'): raise Violation('C++ exception thrown (' + n + ')')
         if n in ('_ZNSt8ios_base4InitC1Ev', '_ZNSt8ios_base4InitD1Ev'): return None
-        if n == '_ZNSt6chrono3_V212steady_clock3nowEv': s.clock = getattr(s, 'clock', 0) + 1000000; return s.clock
-        if n in ('puts', 'printf'):
-            bs = s.fmt(s.cstring(args[0]), args[1:]) if n == 'printf' else [ord(c) for c in s.cstring(args[0], 1 << 20)] + [10]
-            s.vfs.setdefault('<stdout>', []).extend(bs); return len(bs)
-        if n == 'getopt': return 0xFFFFFFFF
-        if n in ('fopen',): return s.alloc(16, 'FILE', zero=True)
-        if n in ('fileno',): return 3
-        if n in ('fclose', 'fcntl', 'setvbuf', 'fseek', 'ftell', 'perror', 'unlink', 'remove'): return 0
-        if n in ('_Znam',): return s.alloc(s.concretize(args[0], 64), 'heap[]')
-        if n == 'snprintf':
-            if args[1]: s.store(args[0], 1, 0)
-            return 0
-        if n in ('strtol', 'strtoll', 'strtoul', 'strtoull', 'atoi'):
-            txt = s.cstring(args[0]).strip(); base = args[2] if len(args) > 2 else 10
-            k = 0; sign = 1
-            if txt[:1] in '+-': sign = -1 if txt[0] == '-' else 1; txt = txt[1:]
-            digs = '0123456789abcdefghijklmnopqrstuvwxyz'[:base or 10]
-            v = 0
-            for ch in txt.lower():
-                if ch not in digs: break
-                v = v * (base or 10) + digs.index(ch)
-            if len(args) > 1 and args[1]: s.store(args[1], 8, args[0])
-            return (sign * v) & 0xFFFFFFFFFFFFFFFF
+        if n == '_ZNSt6chrono3_V212steady_clock3nowEv': s.clock += 1000000; return s.clock
+        if n in ('time',): s.clock += 1000000; return s.clock // 1000000000 + 1700000000
+        if n == 'getopt' or n == 'getopt_long': return 0xFFFFFFFF
+        if n in ('signal', 'sigaction', 'sigemptyset', 'sigaddset', 'sigprocmask', 'fcntl', 'ioctl', 'chdir', 'pthread_sigmask'):
+            return 0xFFFFFFFF if n == 'ioctl' else 0
+        if n in ('strtol', 'strtoll', 'strtoul', 'strtoull', 'atoi', 'atol'):
+            txt = s.cstring(args[0]); base = s.concretize(args[2], 32) if len(args) > 2 else 10
+            i = 0
+            while i < len(txt) and txt[i] in ' \t\n\r\v\f': i += 1
+            sign = 1
+            if txt[i:i + 1] in ('+', '-') and txt[i:i + 1]: sign = -1 if txt[i] == '-' else 1; i += 1
+            if base in (0, 16) and txt[i:i + 2].lower() == '0x': i += 2; base = 16
+            elif base == 0: base = 8 if txt[i:i + 1] == '0' else 10
+            digs = '0123456789abcdefghijklmnopqrstuvwxyz'[:base]
+            v = 0; j = i
+            while j < len(txt) and txt[j].lower() in digs: v = v * base + digs.index(txt[j].lower()); j += 1
+            if j == i: j = 0
+            if len(args) > 1 and n.startswith('strto') and args[1]: s.store(args[1], 8, args[0] + j)
+            v *= sign
+            bits = 32 if n == 'atoi' else 64
+            if n in ('strtol', 'strtoll', 'atol'):
+                if v > (1 << 63) - 1: v = (1 << 63) - 1; s.set_errno(34)
+                if v < -(1 << 63): v = -(1 << 63); s.set_errno(34)
+            elif n in ('strtoul', 'strtoull') and abs(v) > (1 << 64) - 1: v = (1 << 64) - 1; s.set_errno(34)
+            return v & ((1 << bits) - 1)
+        if n in ('strtod', 'atof'):
+            import re
+            txt = s.cstring(args[0]); mm = re.match(r'\s*[-+]?(\d+\.?\d*([eE][-+]?\d+)?|\.\d+([eE][-+]?\d+)?)', txt)
+            if len(args) > 1 and args[1]: s.store(args[1], 8, args[0] + (mm.end() if mm else 0))
+            return float(mm.group(0)) if mm else 0.0
         if n == '__errno_location':
-            if not hasattr(s, 'errno_addr') or s.errno_run != id(s.cells): s.errno_addr = s.alloc(4, 'errno', zero=True); s.errno_run = id(s.cells)
+            if s.errno_addr is None: s.errno_addr = s.alloc(4, 'errno', zero=True)
             return s.errno_addr
+        if n in ('getloadavg',): return 0xFFFFFFFF
+        if n in ('sysconf', 'get_nprocs'): return 4
+        if n in ('sched_getaffinity',): return 0xFFFFFFFF
+        if n in ('getcwd',):
+            for i, ch in enumerate(b'/work\0'): s.store(args[0] + i, 1, ch)
+            return args[0]
         raise NotImplementedError('external ' + n)
 
     # ---- in-memory file system behind stdio / unistd
     def set_errno(s, v):
         a = s.external('@__errno_location', []); s.store(a, 4, v)
     def fmt(s, f, args):
+        """printf-style formatting; f is a python str, args are engine values; returns list of byte values (ints or 8-bit terms)"""
         out = []; i = 0; ai = 0
         while i < len(f):
             c = f[i]
             if c != '%': out.append(ord(c)); i += 1; continue
-            i += 1; spec = ''
-            while f[i] in '0123456789-+ #.': spec += f[i]; i += 1
+            i += 1; flags = ''
+            while f[i] in '-+ #0': flags += f[i]; i += 1
+            width = ''
+            if f[i] == '*': width = str(sx(s.concretize(args[ai], 32), 32)); ai += 1; i += 1
+            while f[i].isdigit(): width += f[i]; i += 1
+            prec = None
+            if f[i] == '.':
+                i += 1; prec = ''
+                if f[i] == '*': prec = str(sx(s.concretize(args[ai], 32), 32)); ai += 1; i += 1
+                while f[i].isdigit(): prec += f[i]; i += 1
+                prec = int(prec or 0)
             ln = ''
             while f[i] in 'lhzjt': ln += f[i]; i += 1
             cv = f[i]; i += 1
             if cv == '%': out.append(37); continue
             a = args[ai]; ai += 1
-            if cv == 's': out += [ord(ch) for ch in s.cstring(a, 1 << 20)]; continue
-            bits = 64 if ln in ('l', 'll', 'z', 'j', 't') else 32
-            a = s.concretize(a, bits) & ((1 << bits) - 1)
-            if cv in 'di': txt = str(sx(a, bits))
-            elif cv == 'u': txt = str(a)
-            elif cv == 'x': txt = '%x' % a
-            elif cv == 'c': txt = chr(a & 255)
-            else: raise NotImplementedError('printf %' + cv)
-            out += [ord(ch) for ch in txt]
+            if cv == 's':
+                # keep symbolic bytes symbolic
+                bs = []; k = 0; a = s.concretize(a, 64)
+                while prec is None or k < prec:
+                    b = s.load(a + k, 1)
+                    if is_sym(b):
+                        if s.branch(b == 0): break
+                    elif b == 0: break
+                    bs.append(b); k += 1
+                pad = max(0, int(width or 0) - len(bs))
+                out += (bs + [32] * pad) if '-' in flags else ([32] * pad + bs); continue
+            if cv in 'feEgG':
+                x = float(a) if not is_sym(a) else float(s.concretize(a, 64))
+                spec = '%' + flags + width + ('.%d' % prec if prec is not None else '') + cv
+                out += [ord(ch) for ch in spec % x]; continue
+            bits = 64 if ln in ('l', 'll', 'z', 'j', 't') or cv == 'p' else 32
+            if ln == 'hh': bits = 8
+            elif ln == 'h': bits = 16
+            a = s.concretize(a, 64 if bits == 64 else 32) & ((1 << bits) - 1)
+            if cv == 'c': txt = chr(a & 255); spec = '%' + flags.replace('0', '') + width + 's'
+            else:
+                val = sx(a, bits) if cv in 'di' else a
+                spec = '%' + flags + width + ('.%d' % prec if prec is not None else '') + {'d': 'd', 'i': 'd', 'u': 'd', 'x': 'x', 'X': 'X', 'o': 'o', 'p': 'x'}[cv]
+                txt = spec % val; spec = '%s'
+                if cv == 'p': txt = '0x' + txt
+            out += [ord(ch) for ch in spec % txt]
         return out
+    def vfs_write(s, fh, bs):
+        f = s.files.get(fh)
+        if f is None: raise Violation('memory-safety: write to an invalid FILE* %#x' % fh)
+        if f['path'] in ('<stdout>', '<stderr>'): s.vfs[f['path']].extend(bs); return
+        if 'w' not in f['mode'] and 'a' not in f['mode'] and '+' not in f['mode']: return
+        s.events += 1
+        if s.frozen: return
+        data = s.vfs[f['path']] if f['path'] in s.vfs and s.vfs_id.get(f['path']) == f['id'] else f.setdefault('orphan', [])
+        if f['append']: f['pos'] = len(data)
+        if f['pos'] > len(data): data.extend([0] * (f['pos'] - len(data)))
+        data[f['pos']:f['pos'] + len(bs)] = bs; f['pos'] += len(bs)
+        s.vfs_clock += 1; s.vfs_mtime[f['path']] = s.vfs_clock
     def vfs_call(s, n, args):
         F = s.files; V = s.vfs
-        if n == 'fopen':
+        if n in ('fopen', 'fopen64'):
             path = s.cstring(args[0]); mode = s.cstring(args[1])
             if mode[0] == 'r' and path not in V: s.set_errno(2); return 0
-            if mode[0] == 'w' or path not in V:
-                if mode[0] != 'r': V[path] = [] if mode[0] == 'w' or path not in V else V[path]; s.events += 1
+            if path in s.vfs_dirs: s.set_errno(21); return 0
+            if mode[0] != 'r':
+                s.events += 1
+                if s.frozen: path = '<frozen:%d>' % s.events; V[path] = []; s.vfs_id[path] = s.events
+                elif mode[0] == 'w' or path not in V:
+                    V[path] = []; s.vfs_id[path] = s.events; s.vfs_clock += 1; s.vfs_mtime[path] = s.vfs_clock
             h = s.alloc(16, 'FILE ' + path, zero=True)
-            F[h] = dict(path=path, pos=len(V[path]) if mode[0] == 'a' else 0, append=mode[0] == 'a', eof=False)
+            F[h] = dict(path=path, pos=len(V[path]) if mode[0] == 'a' else 0, append=mode[0] == 'a', eof=False, mode=mode, id=s.vfs_id.get(path))
             return h
-        if n == 'fclose': F.pop(args[0], None); return 0
-        if n in ('fflush', 'setvbuf', 'fcntl'): return 0
-        if n == 'fileno': return 3
-        if n == 'ftell': return F[args[0]]['pos']
-        if n == 'fseek':
-            f = F[args[0]]; off = sx(args[1], 64); wh = args[2]
+        if n == 'fclose':
+            h = s.concretize(args[0], 64)
+            if h not in F: raise Violation('memory-safety: fclose of an invalid FILE* %#x' % h)
+            F.pop(h); s.find_alloc(h)[2] = False; return 0
+        if n in ('fflush', 'setvbuf', 'fsync'): return 0
+        if n == 'fileno':
+            f = F.get(args[0]); return {'<stdout>': 1, '<stderr>': 2}.get(f['path'], 3) if f else 3
+        if n in ('ftell', 'ftello'): return F[args[0]]['pos']
+        if n in ('fseek', 'fseeko'):
+            f = F[args[0]]; off = sx(s.concretize(args[1], 64), 64); wh = s.concretize(args[2], 32)
             f['pos'] = off if wh == 0 else f['pos'] + off if wh == 1 else len(V[f['path']]) + off; f['eof'] = False; return 0
+        if n == 'rewind': F[args[0]]['pos'] = 0; F[args[0]]['eof'] = False; return None
         if n == 'feof': return int(F[args[0]]['eof'])
-        if n == 'ferror': return 0
+        if n in ('ferror', 'clearerr'): return 0
         if n == 'fread':
-            ptr, size, nm, f = args[0], s.concretize(args[1], 64), s.concretize(args[2], 64), F[args[3]]
-            data = V[f['path']]; want = size * nm; have = max(0, len(data) - f['pos'])
+            ptr, size, nm, f = s.concretize(args[0], 64), s.concretize(args[1], 64), s.concretize(args[2], 64), F[args[3]]
+            data = V.get(f['path'], []); want = size * nm; have = max(0, len(data) - f['pos'])
             items = min(want, have) // size if size else 0
-            for i in range(items * size): s.store(ptr + i, 1, data[f['pos'] + i])
-            if items < nm: f['eof'] = True; f['pos'] = len(data) if have < want else f['pos'] + items * size
-            else: f['pos'] += items * size
+            got = min(want, have)
+            if got: s.check(ptr, got, 'fread store')
+            for i in range(got): s.store(ptr + i, 1, data[f['pos'] + i])
+            f['pos'] += got
+            if items < nm: f['eof'] = True
             return items
-        if n in ('fwrite', 'fprintf', 'fputs', 'fputc'):
-            if n == 'fwrite':
-                ptr, size, nm, fh = args[0], s.concretize(args[1], 64), s.concretize(args[2], 64), args[3]
+        if n == 'fgets':
+            ptr, size, f = s.concretize(args[0], 64), s.concretize(args[1], 32), F[args[2]]
+            data = V.get(f['path'], []); k = 0
+            if f['pos'] >= len(data): f['eof'] = True; return 0
+            while k < size - 1 and f['pos'] < len(data):
+                b = data[f['pos']]; s.store(ptr + k, 1, b); k += 1; f['pos'] += 1
+                if is_sym(b):
+                    if s.branch(b == 10): break
+                elif b == 10: break
+            s.store(ptr + k, 1, 0); return ptr
+        if n in ('fgetc', 'getc'):
+            f = F[args[0]]; data = V.get(f['path'], [])
+            if f['pos'] >= len(data): f['eof'] = True; return 0xFFFFFFFF
+            b = data[f['pos']]; f['pos'] += 1
+            return z3.ZeroExt(24, b) if is_sym(b) else b
+        if n in ('fwrite', 'fwrite_unlocked', 'fprintf', 'fputs', 'fputc', 'putc', 'printf', 'puts', 'putchar'):
+            if n.startswith('fwrite'):
+                ptr, size, nm, fh = s.concretize(args[0], 64), s.concretize(args[1], 64), s.concretize(args[2], 64), args[3]
+                if size * nm: s.check(ptr, size * nm, 'fwrite load')
                 bs = [s.load(ptr + i, 1) for i in range(size * nm)]; ret = nm
-            elif n == 'fprintf':
-                fh = args[0]; bs = s.fmt(s.cstring(args[1]), args[2:]); ret = len(bs)
-            elif n == 'fputs': fh = args[1]; bs = [ord(c) for c in s.cstring(args[0], 1 << 20)]; ret = 1
-            else: fh = args[1]; bs = [args[0] & 255]; ret = args[0]
-            f = F.get(fh)
-            if f is None: return ret          # stdout / stderr
-            data = V[f['path']]
-            if f['append']: f['pos'] = len(data)
-            data[f['pos']:f['pos'] + len(bs)] = bs; f['pos'] += len(bs); s.events += 1
-            return ret
-        if n == 'unlink' or n == 'remove':
+            elif n == 'fprintf': fh = args[0]; bs = s.fmt(s.cstring(args[1]), args[2:]); ret = len(bs)
+            elif n == 'printf': fh = s.stdout_h; bs = s.fmt(s.cstring(args[0]), args[1:]); ret = len(bs)
+            elif n == 'fputs': fh = args[1]; bs = s.cbytes(args[0], len(s.cstring(args[0]))); ret = 1
+            elif n == 'puts': fh = s.stdout_h; bs = s.cbytes(args[0], len(s.cstring(args[0]))) + [10]; ret = 1
+            elif n == 'putchar': fh = s.stdout_h; bs = [args[0] & 255 if not is_sym(args[0]) else z3.Extract(7, 0, args[0])]; ret = args[0]
+            else: fh = args[1]; bs = [args[0] & 255 if not is_sym(args[0]) else z3.Extract(7, 0, args[0])]; ret = args[0]
+            s.vfs_write(s.concretize(fh, 64), bs); return ret
+        if n in ('snprintf', 'sprintf'):
+            if n == 'snprintf': buf, cap, f, rest = args[0], s.concretize(args[1], 64), s.cstring(args[2]), args[3:]
+            else: buf, cap, f, rest = args[0], 1 << 30, s.cstring(args[1]), args[2:]
+            bs = s.fmt(f, rest)
+            if cap:
+                k = min(len(bs), cap - 1)
+                for i in range(k): s.store(buf + i, 1, bs[i])
+                s.store(buf + k, 1, 0)
+            return len(bs)
+        if n in ('unlink', 'remove'):
             path = s.cstring(args[0])
             if path not in V: s.set_errno(2); return 0xFFFFFFFF
-            del V[path]; s.events += 1; return 0
+            s.events += 1
+            if not s.frozen: del V[path]; s.vfs_id.pop(path, None)
+            return 0
         if n == 'rename':
             a, b = s.cstring(args[0]), s.cstring(args[1])
             if a not in V: s.set_errno(2); return 0xFFFFFFFF
-            V[b] = V.pop(a); s.events += 1; return 0
-        if n == 'truncate':
+            s.events += 1
+            if not s.frozen:
+                V[b] = V.pop(a); s.vfs_id[b] = s.vfs_id.pop(a, None); s.vfs_clock += 1; s.vfs_mtime[b] = s.vfs_mtime.get(a, 0)
+                for f in F.values():
+                    if f['path'] == a: f['path'] = b
+            return 0
+        if n in ('truncate', 'truncate64'):
             path = s.cstring(args[0]); ln = s.concretize(args[1], 64)
             if path not in V: s.set_errno(2); return 0xFFFFFFFF
-            d = V[path]; V[path] = d[:ln] + [0] * (ln - len(d)); s.events += 1; return 0
-        if n in ('stat', 'chown'): return 0 if s.cstring(args[0]) in V else 0xFFFFFFFF
+            s.events += 1
+            if not s.frozen:
+                d = V[path]; d[:] = d[:ln] + [0] * (ln - len(d)); s.vfs_clock += 1; s.vfs_mtime[path] = s.vfs_clock
+            return 0
+        if n in ('mkdir',):
+            path = s.cstring(args[0])
+            if path in s.vfs_dirs: s.set_errno(17); return 0xFFFFFFFF
+            s.events += 1
+            if not s.frozen: s.vfs_dirs.add(path)
+            return 0
+        if n in ('access',): return 0 if s.cstring(args[0]) in V else 0xFFFFFFFF
+        if n in ('chown',): return 0 if s.cstring(args[0]) in V else 0xFFFFFFFF
+        if n in ('stat', 'stat64', 'lstat', '__xstat', '__xstat64', '__lxstat'):
+            pa, sa = (args[1], args[2]) if n.startswith('__') else (args[0], args[1])
+            path = s.cstring(pa)
+            if path not in V and path not in s.vfs_dirs: s.set_errno(2); return 0xFFFFFFFF
+            for i in range(0, 144, 8): s.store(sa + i, 8, 0)
+            isdir = path in s.vfs_dirs
+            s.store(sa + 24, 4, 0o040755 if isdir else 0o100644)           # st_mode
+            s.store(sa + 48, 8, 0 if isdir else len(V[path]))               # st_size
+            s.store(sa + 88, 8, s.vfs_mtime.get(path, 1)); s.store(sa + 96, 8, 0)   # st_mtim
+            return 0
         if n == 'verif_file_size':
             path = s.cstring(args[0]); return len(V[path]) if path in V else 0xFFFFFFFFFFFFFFFF
+        if n == 'verif_vfs_freeze': s.frozen = bool(s.concretize(args[0], 32)); return None
+        if n == 'verif_vfs_events': return s.events
         if n in ('sscanf', '__isoc99_sscanf'):
             txt = s.cstring(args[0], 64); f = s.cstring(args[1]); ti = 0; fi = 0; ai = 2; got = 0
             while fi < len(f):
                 c = f[fi]
                 if c == '%' and f[fi + 1] == 'd':
                     j = ti
+                    while j < len(txt) and txt[j].isspace(): j += 1
+                    st = j
                     if j < len(txt) and txt[j] in '+-': j += 1
                     k = j
                     while k < len(txt) and txt[k].isdigit(): k += 1
                     if k == j: return got
-                    s.store(args[ai], 4, int(txt[ti:k]) & 0xFFFFFFFF); ai += 1; got += 1; ti = k; fi += 2
+                    s.store(args[ai], 4, int(txt[st:k]) & 0xFFFFFFFF); ai += 1; got += 1; ti = k; fi += 2
                 elif c.isspace():
                     while ti < len(txt) and txt[ti].isspace(): ti += 1
                     fi += 1
@@ -900,27 +1221,45 @@ class Engine:
         return NotImplemented
 
     # ---- exploration
-    def stdout_text(s): return bytes(b if isinstance(b, int) else 63 for b in s.vfs.get('<stdout>', [])).decode('latin1')
+    def out_text(s, name='<stdout>'): return bytes(b if isinstance(b, int) else 63 for b in s.vfs.get(name, [])).decode('latin1')
 
-    def explore(s, entry, max_paths=100000, time_limit=1e9):
-        s.work = [[]]; paths = 0; ended = collections.Counter(); t0 = time.time(); total_i = 0
-        while s.work and paths < max_paths and time.time() - t0 < time_limit:
-            s.prefix = s.work.pop(); s.reset(); paths += 1
+    def run_path(s, entry, prefix):
+        """execute one path following prefix; returns a result dict; new alternatives are appended to s.work"""
+        s.prefix = prefix; s.reset()
+        end = 'complete'; detail = ''
+        try:
+            s.call('@' + entry, [])
+        except PathEnd as e: end = 'pathend'; detail = str(e)
+        except Violation as e:
+            end = 'violation'; detail = str(e)
+            try: s.report(detail)
+            except (Inconclusive, PathEnd): s.violations.append(dict(msg=detail, known=None, vector=[], trace=list(s.trace), notes=list(s.notes)))
+        except Inconclusive as e: end = 'inconclusive'; detail = str(e)
+        except RecursionError: end = 'inconclusive'; detail = 'python recursion limit'
+        res = dict(end=end, detail=detail, steps=s.icount, decisions=len(s.trace), new_decisions=len(s.trace) - len(prefix),
+                   violations=s.violations, reached=sorted(set(s.reached)), asserts=dict(s.asserts_seen), nondets=len(s.nondets))
+        if end in ('complete', 'pathend') and not detail.startswith(('assume false', 'infeasible')):
             try:
-                s.call('@' + entry, []); ended['complete'] += 1; s.last_stdout = s.stdout_text()
-            except PathEnd as e: ended[str(e)] += 1
-            except Violation as e:
-                s.violations.append((str(e), {}, list(s.trace))); ended['violation'] += 1
-            total_i += s.icount
-        return dict(paths=paths, pending=len(s.work), ended=dict(ended), instructions=total_i, wall=time.time() - t0, solver_calls=s.stats['solver_calls'], asserts=s.stats['asserts'])
+                mdl = s.cur_model()
+                res['vector'] = s.vector_of(mdl); res['obs'] = [sx(s.eval_in(mdl, o), 64) for o in s.obs]; res['notes'] = list(s.notes)
+                res['stdout'] = bytes(s.eval_in(mdl, b) & 255 for b in s.vfs.get('<stdout>', [])[:400]).decode('latin1')
+            except (PathEnd, Inconclusive): pass
+        return res
+
+def worker_explore(engine, entry, prefix, max_paths, deadline):
+    """DFS below prefix for at most max_paths paths; returns (results, leftover prefixes, stats)"""
+    engine.work = [prefix]; results = []
+    engine.stats = collections.Counter()
+    while engine.work and len(results) < max_paths and time.time() < deadline:
+        p = engine.work.pop()
+        results.append(engine.run_path(entry, p))
+    left = engine.work; engine.work = []
+    return results, left, dict(engine.stats)
 
 if __name__ == '__main__':
     e = Engine(sys.argv[1])
-    mp = int(sys.argv[sys.argv.index('--max-paths') + 1]) if '--max-paths' in sys.argv else 100000
-    r = e.explore(sys.argv[2], mp)
-    print(r)
-    if getattr(e, 'last_stdout', ''): print('STDOUT of last path:', repr(e.last_stdout))
-    seen = set()
-    for msg, mdl, tr in e.violations:
-        if msg in seen: continue
-        seen.add(msg); print('VIOLATION', msg, mdl)
+    res, left, st = worker_explore(e, sys.argv[2], [], int(sys.argv[3]) if len(sys.argv) > 3 else 100000, time.time() + 3600)
+    ends = collections.Counter(r['end'] + (':' + r['detail'] if r['end'] != 'complete' else '') for r in res)
+    print(len(res), 'paths', len(left), 'pending', dict(ends), st)
+    for r in res:
+        for v in r['violations']: print('VIOLATION', v['msg'], v['vector'])
